@@ -196,6 +196,10 @@ def validate_registry_header(
 def check_crit_header(header: Header) -> None:
     # check crit header
     if "crit" in header:
+        try:
+            is_list_str(header["crit"])
+        except ValueError as error:
+            raise ValueError(f'"crit" in header {error}')
         for k in header["crit"]:
             if k not in header:
                 raise ValueError(f'"{k}" is a critical header')
